@@ -227,7 +227,10 @@ class Model(object):
         self.nsamples[k] += 1
 
         if not np.all(np.isnan(self.objval[:self.npt()])):
+            kopt_old = self.kopt
             self.kopt = np.nanargmin(self.objval[:self.npt()])  # make sure kopt is always the best value we have (ignoring NaNs)
+            if self.kopt != kopt_old:
+                self.factorisation_current = False  # interpolation system is built around xopt, which has just moved
         return
 
     def add_new_point(self, x, rvec, eval_num):
